@@ -134,7 +134,8 @@ func (H) Generate(prop, tier string, seed uint64) *simkit.Plan {
 	}
 	// shutting down while in use
 	if r.Chance(0.6) {
-		p.AddStep(Step{Client: r.Intn(clients), Op: "shutdown", Ms: []int{0, 1, 20, 300}[r.Intn(4)]})
+		// (N: how many callers shut it down in the same instant)
+		p.AddStep(Step{Client: r.Intn(clients), Op: "shutdown", Ms: []int{0, 1, 20, 300}[r.Intn(4)], N: r.Pick(3, 2) + 1})
 		for i, m := 0, r.Range(0, 10); i < m; i++ {
 			p.AddStep(Step{Client: r.Intn(clients), Op: ops[r.Intn(len(ops))], Cid: r.Intn(5), Peer: r.Intn(4), Ms: []int{0, 0, 1, 10}[r.Intn(4)], N: 1, Valid: true, TTLMs: 500})
 		}
@@ -199,6 +200,26 @@ func (H) Execute(t *testing.T, plan *simkit.Plan, run *simkit.Run) {
 	}
 	cleanup()
 	synctest.Wait()
+}
+
+// callers runs fn from n callers at once (n < 2: from one) and reports whether
+// all of them were back within the bound.
+func callers(run *simkit.Run, n int, bound time.Duration, fn func()) bool {
+	if n < 2 {
+		return call(bound, fn)
+	}
+	run.Probe("shutdown_by_two_callers_at_once")
+	res := make(chan bool, n)
+	for i := 0; i < n; i++ {
+		go func() { res <- call(bound, fn) }()
+	}
+	ok := true
+	for i := 0; i < n; i++ {
+		if !<-res {
+			ok = false
+		}
+	}
+	return ok
 }
 
 func call(bound time.Duration, fn func()) bool {
@@ -336,7 +357,7 @@ func trackerWorld(plan *simkit.Plan, run *simkit.Run) (func(Step), func()) {
 			ipfs.SetHold(false)
 			for ipfs.Release(0, "ok") {
 			}
-			if !call(2*time.Minute, func() { tr.Shutdown(ctx) }) {
+			if !callers(run, s.N, 2*time.Minute, func() { tr.Shutdown(ctx) }) {
 				run.Violate("C18/shutdown_stuck", "tracker", "the pin tracker's Shutdown has not returned after 2 simulated minutes while other callers were using it")
 			}
 			run.Probe("shutdown_while_in_use")
@@ -463,7 +484,7 @@ func metricsWorld(plan *simkit.Plan, run *simkit.Run) (func(Step), func()) {
 			store.MetricNames()
 			mon.MetricNames(ctx)
 		case "shutdown":
-			if !call(2*time.Minute, func() { mon.Shutdown(ctx) }) {
+			if !callers(run, s.N, 2*time.Minute, func() { mon.Shutdown(ctx) }) {
 				run.Violate("C18/shutdown_stuck", "monitor", "the monitor's Shutdown has not returned after 2 simulated minutes while other callers were using it")
 			}
 			run.Probe("shutdown_while_in_use")
@@ -591,7 +612,7 @@ func clusterWorld(plan *simkit.Plan, run *simkit.Run) (func(Step), func()) {
 		case "sync":
 			cl.StateSync(ctx)
 		case "shutdown":
-			if !call(2*time.Minute, func() { cl.Shutdown(ctx) }) {
+			if !callers(run, s.N, 2*time.Minute, func() { cl.Shutdown(ctx) }) {
 				run.Violate("C18/shutdown_stuck", "cluster", "Cluster.Shutdown has not returned after 2 simulated minutes while other callers were using the peer")
 			}
 			run.Probe("shutdown_while_in_use")
@@ -634,8 +655,10 @@ func informerWorld(plan *simkit.Plan, run *simkit.Run) (func(Step), func()) {
 				run.Violate("C18/torn_metrics", "numpin", "the numpin informer returned %v", m)
 			}
 		case "shutdown":
-			di.Shutdown(ctx)
-			ni.Shutdown(ctx)
+			callers(run, s.N, 2*time.Minute, func() {
+				di.Shutdown(ctx)
+				ni.Shutdown(ctx)
+			})
 			run.Probe("shutdown_while_in_use")
 		}
 	}
@@ -729,7 +752,7 @@ func crdtWorld(plan *simkit.Plan, run *simkit.Run) (func(Step), func()) {
 		case "peers":
 			cons.Peers(ctx)
 		case "shutdown":
-			if !call(2*time.Minute, func() { cons.Shutdown(ctx) }) {
+			if !callers(run, s.N, 2*time.Minute, func() { cons.Shutdown(ctx) }) {
 				run.Violate("C18/shutdown_stuck", "crdt", "the CRDT component's Shutdown has not returned after 2 simulated minutes while other callers were using it")
 			}
 			run.Probe("shutdown_while_in_use")
